@@ -328,6 +328,21 @@ class C05(SessionCheck):
             # failed connect: must have FAILED (not hung): conn_result is set by the connecting thread
             if io['conn_result'] is None and info.get('finished'):
                 return ('C05:connect-hangs', 'connect neither returned nor raised')
+            # a VALID server hello (judged by an independent parser: well-formed, <hello> in the base namespace or none, a session-id,
+            # every <capability> non-empty) that was completely read, with no fault injected, must not make connect fail
+            texts = info.get('server_texts') or []
+            hello_srv = next((t for t in texts if t.startswith('<hello')), None)
+            if hello_srv and io['conn_result'] not in (None, 'ok') and case['flavor'] in ('normal', 'late-ready') and not info.get('faults') \
+                    and info.get('finished') and not info.get('expired'):
+                try:
+                    r = ET.fromstring(hello_srv)
+                    caps = [c.text for c in r.iter() if c.tag.endswith('capability')]
+                    sid = [c.text for c in r.iter() if c.tag.endswith('session-id')]
+                    valid = r.tag in ('{%s}hello' % BASE_NS, 'hello') and all(caps) and len(sid) == 1 and bool(sid[0])
+                except Exception:
+                    valid = False
+                if valid:
+                    return ('C05:valid-hello-rejected', 'the server sent a valid <hello> (%r...) and nothing went wrong on the transport, yet connect gave %s' % (hello_srv[:120], io['conn_result']))
         return None
 
 
